@@ -26,7 +26,8 @@ def item(i):
     # (the delegation-target trait is called TI: the generated `trait DelegateTr<T>` shadows a trait named `T`, see C19)
     # for trait inputs `itemvis` is the visibility keyword written before the delegation-target trait's name in the
     # attribute: it must not matter - the target trait takes the visibility of the original trait
-    return f"#[::entrait::entrait({iv}TI, delegate_by = DelegateTr)]\n    {vis}trait Tr {{ fn m(&self); }}"
+    inner = "\n        //! inner documentation of the trait\n        " if i.get("inner") else " "
+    return f"#[::entrait::entrait({iv}TI, delegate_by = DelegateTr)]\n    {vis}trait Tr {{{inner}fn m(&self); }}"
 
 
 def tname(i):
